@@ -300,6 +300,73 @@ pub fn enumerate_walks(p: &Program, cfg: &MachineCfg, limit: usize) -> Option<Wa
     }
 }
 
+/// Parse the canonical outcome text back into per-op results.
+pub fn parse_outcome(p: &Program, s: &str) -> Vec<Vec<Option<u64>>> {
+    let mut res: Vec<Vec<Option<u64>>> = p.threads.iter().map(|t| vec![None; t.len()]).collect();
+    for tok in s.split_whitespace() {
+        let (lhs, rhs) = tok.split_once('=').unwrap();
+        let (t, pc) = lhs[1..].split_once('.').unwrap();
+        let v = match rhs {
+            "-" => None,
+            "ERR" => Some(R_ERR),
+            "EMPTY" => Some(R_EMPTY),
+            x => Some(x.parse().unwrap()),
+        };
+        res[t.parse::<usize>().unwrap()][pc.parse::<usize>().unwrap()] = v;
+    }
+    res
+}
+
+/// Guided reachability: can the machine (under `cfg`) finish with exactly the results `target`?
+/// Depth-first over all choices, pruning a path as soon as a completed op disagrees with the
+/// target. Used only to attribute a missing outcome to a known finding's deviation.
+/// None = step budget exhausted.
+pub fn outcome_reachable(p: &Program, cfg: &MachineCfg, target: &[Vec<Option<u64>>], budget: usize) -> Option<bool> {
+    let mut sc = ScriptChoose::default();
+    let mut total_steps = 0usize;
+    let nt = p.n_threads();
+    loop {
+        sc.taken.clear();
+        let mut m = Machine::new(p, cfg.clone(), false);
+        let mut last: Option<usize> = None;
+        let mut pruned = false;
+        loop {
+            let en: Vec<usize> = (0..nt).filter(|&t| m.enabled(t)).collect();
+            if en.is_empty() {
+                break;
+            }
+            let forced = match last {
+                Some(l) if cfg.switch_only_at_branch_points && en.contains(&l) && m.next_is_nonbranching(l) => Some(l),
+                _ => None,
+            };
+            let t = match forced {
+                Some(l) => l,
+                None => en[sc.choose(en.len())],
+            };
+            last = Some(t);
+            let pc = m.pc(t);
+            let done = match m.step(t, None, &mut sc) {
+                Ok(d) => d,
+                Err(_) => panic!("reachability step rejected"),
+            };
+            total_steps += 1;
+            if done && p.threads[t][pc].has_result() && m.results[t][pc] != target[t][pc] {
+                pruned = true;
+                break;
+            }
+            if total_steps > budget {
+                return None;
+            }
+        }
+        if !pruned && m.all_done() && m.results.as_slice() == target {
+            return Some(true);
+        }
+        if !sc.next_script() {
+            return Some(false);
+        }
+    }
+}
+
 pub fn class_of_terminal(t: &Terminal) -> Option<FailClass> {
     match t {
         Terminal::Done => None,
